@@ -1248,18 +1248,21 @@ class Unit:
     @lru_cache(maxsize=None)
     def as_ratio(self) -> Tuple["Unit", "Unit"]:
         """Returns this unit, split into a numerator and denominator"""
-        numerator, denominator = self.dimension.as_ratio()
+        numerator = {u: e for u, e in self.factors.items() if e >= 0} or {One: 1}
+        denominator = {u: -e for u, e in self.factors.items() if e < 0} or {One: 1}
+
+        # the dimension of each part is the product of its own factors' dimensions,
+        # which is not, in general, the numerator or denominator of the whole
+        # unit's dimension (consider Hz⋅m, or m²⋅ft⁻¹)
+        def dimension_of(factors: Mapping["Unit", int]) -> Dimension:
+            dimension = Number
+            for unit, exponent in factors.items():
+                dimension *= unit.dimension**exponent
+            return dimension
+
         return (
-            Unit(
-                self.prefix,
-                {u: e for u, e in self.factors.items() if e >= 0} or {One: 1},
-                numerator,
-            ),
-            Unit(
-                IdentityPrefix,
-                {u: -e for u, e in self.factors.items() if e < 0} or {One: 1},
-                denominator,
-            ),
+            Unit(self.prefix, numerator, dimension_of(numerator)),
+            Unit(IdentityPrefix, denominator, dimension_of(denominator)),
         )
 
 
